@@ -304,6 +304,22 @@ class Forcing:
                         nxt = []
                     else:
                         nxt = b.succs(bb)
+                        if e[0] == "discr":
+                            # forced variant atoms ('isvar', x, i, ..): 1 takes arm i, 0 excludes it
+                            take, drop_ = None, set()
+                            for val, target in t["targets"]:
+                                fv = self._isvar_forced(e[1], int(val), t, bb)
+                                if fv == 1:
+                                    take = target
+                                elif fv == 0:
+                                    drop_.add(target)
+                            if take is not None:
+                                nxt = [take]
+                            elif drop_:
+                                keep = {tg for v_, tg in t["targets"] if tg not in drop_}
+                                if t["otherwise"] is not None:
+                                    keep.add(t["otherwise"])
+                                nxt = [x_ for x_ in nxt if x_ in keep]
                 else:
                     nxt = b.succs(bb)
                 for s in nxt:
@@ -313,6 +329,25 @@ class Forcing:
                     if s not in self.reach:
                         self.reach.add(s)
                         changed = True
+
+    def _isvar_forced(self, x, idx, t=None, bb=None):
+        """forced value of the variant atom ('isvar', x, idx, enum, variant) for the switch terminator t of block bb"""
+        b = self.b
+        op = t["discr"]
+        if op.get("k") not in ("move", "copy") or op["place"]["p"]:
+            return None
+        ds = b.defs().get(op["place"]["l"], [])
+        if len(ds) != 1 or ds[0][1] == "T":
+            return None
+        st = b.blocks[ds[0][0]]["stmts"][ds[0][1]]
+        if st["rv"].get("k") != "discr":
+            return None
+        from .mir import norm_name
+        ty = (b._place_type(st["rv"]["place"]) or "").lstrip("&").replace("mut ", "")
+        adt = b.prog.adts.get(norm_name(ty))
+        if not adt or idx >= len(adt.get("variants", [])):
+            return None
+        return self.atom(("isvar", x, idx, norm_name(ty), adt["variants"][idx]["name"]))
 
     def reachable(self, bb):
         return bb in self.reach
